@@ -205,7 +205,8 @@ func elementToBox(element *utils.HTMLNode, styleFor styleForI,
 		return nil
 	}
 
-	if style.GetFloat() == "footnote" {
+	// (the root element, which has no state yet, keeps its block display)
+	if style.GetFloat() == "footnote" && state != nil {
 		if style.GetFootnoteDisplay() == "block" {
 			style.SetDisplay(pr.Display{"block", "flow"})
 		} else {
